@@ -54,7 +54,7 @@ def scale(ops, maxlen, jitter=0, fill=None):
 
 
 PRELUDE = [{"op": "open"}, {"op": "create_stream", "name": "a"}]
-CONFIGS = [1, 1024, 1536, 2560, 4096, None]
+CONFIGS = [1, 1024, 1536, 2560, 4096, None, 0]      # 0 and 1: below the 1024-byte minimum (clamped up to it)
 
 
 def edge_histories(edges, maxlen, tier):
